@@ -236,6 +236,8 @@ impl Part for AdamPart {
         let opts = AdamOptions { beta1: c.adam_b1, beta2: c.adam_b2, epsilon: 1e-8, learning_rate: c.adam_lr };
         let mut adam = Adam::new(opts, c.initial_step);
         let mut m = 0.0f64;
+        let mut v = 0.0f64;
+        let mut ref_log = c.initial_step.ln();
         let mut prev = adam.current_step_size();
         if prev != c.initial_step && (prev - c.initial_step).abs() > 1e-12 * c.initial_step {
             o.set_fail("C07:adam-initial", format!("initial step {prev:e} != {:e}", c.initial_step));
@@ -246,9 +248,17 @@ impl Part for AdamPart {
             adam.advance(*a, c.target);
             let cur = adam.current_step_size();
             m = c.adam_b1 * m + (1.0 - c.adam_b1) * (a - c.target);
+            // reference log step of the documented Adam recursion; it only gates the positivity
+            // judgement: with beta1 > beta2 one update can move the log step by much more than
+            // lr (a slow first moment over a collapsed second moment), so exp() may leave the
+            // double range after few updates and that is outside "positive finite"
+            v = c.adam_b2 * v + (1.0 - c.adam_b2) * (a - c.target) * (a - c.target);
+            let tt = (t + 1) as i32;
+            let m_hat = m / (1.0 - c.adam_b1.powi(tt));
+            let v_hat = v / (1.0 - c.adam_b2.powi(tt));
+            ref_log += c.adam_lr * m_hat / (v_hat.sqrt() + 1e-8);
             if !(cur.is_finite() && cur > 0.0) {
-                // log step moves by at most lr per update: overflow needs > 700 / lr updates
-                if (t as f64) * c.adam_lr < 600.0 {
+                if ref_log.abs() < 600.0 {
                     o.set_fail("C07:adam-nonpositive", format!("update {}: step {cur:e}", t + 1));
                     return o;
                 }
